@@ -248,11 +248,20 @@ Proof.
     destruct (recv_run l1 sx). destruct (recv_run l2 s). reflexivity.
 Qed.
 
+(* the outcome of the last piece: the assembled file [B] is stored when it is a snapshot ahead of the
+   node's position [applied]; otherwise it is dropped and the store keeps what it held *)
+Definition recv_end (B : blob) (s : S) : S * bool :=
+  if snap_ahead B (applied (nd s))
+  then (set_sr ((sr (nd s)) <| stored := Some B |> <| incoming := None |>) s, true)
+  else (set_sr ((sr (nd s)) <| incoming := None |>) s, false).
+
 Lemma recv_last : forall b o l s acc, incoming (sr (nd s)) = Some acc ->
   recv_run [SData b o l false true] s =
-  (set_sr ((sr (nd s)) <| stored := Some (assemble_snap (acc ++ [(b, o, l)])) |> <| incoming := None |>) s,
-   [true]).
-Proof. intros b o l s acc Hi. cbn [recv_run set_transmission]. rewrite Hi. reflexivity. Qed.
+  (fst (recv_end (assemble_snap (acc ++ [(b, o, l)])) s), [snd (recv_end (assemble_snap (acc ++ [(b, o, l)])) s)]).
+Proof.
+  intros b o l s acc Hi. cbn [recv_run set_transmission]. rewrite Hi. unfold recv_end.
+  destruct (snap_ahead _ _); reflexivity.
+Qed.
 
 Lemma pieces_of_run : forall b0 o0 l0 f0 x0 mids bl ol ll fl xl,
   pieces_of (SData b0 o0 l0 f0 x0 :: mids ++ [SData bl ol ll fl xl]) =
@@ -264,8 +273,8 @@ Lemma recv_complete : forall b0 o0 l0 mids bl ol ll s,
   Forall is_mid mids ->
   let ps := SData b0 o0 l0 true false :: mids ++ [SData bl ol ll false true] in
   recv_run ps s =
-  (set_sr ((sr (nd s)) <| stored := Some (assemble_snap (pieces_of ps)) |> <| incoming := None |>) s,
-   false :: repeat false (length mids) ++ [true]).
+  (fst (recv_end (assemble_snap (pieces_of ps)) s),
+   false :: repeat false (length mids) ++ [snd (recv_end (assemble_snap (pieces_of ps)) s)]).
 Proof.
   intros b0 o0 l0 mids bl ol ll s Hm ps. subst ps. rewrite pieces_of_run.
   cbn [recv_run set_transmission].
@@ -273,14 +282,17 @@ Proof.
   rewrite recv_run_app. rewrite (recv_mids mids s1 [(b0, o0, l0)] Hm) by reflexivity.
   set (s2 := set_sr _ s1).
   rewrite (recv_last bl ol ll s2 ([(b0, o0, l0)] ++ pieces_of mids)) by reflexivity.
-  subst s2 s1. unfold set_sr, upd. cbn. rewrite <- ?app_assoc. reflexivity.
+  subst s2 s1. unfold recv_end, set_sr, upd. cbn. rewrite <- ?app_assoc. cbn.
+  destruct (snap_ahead _ _); reflexivity.
 Qed.
 
 (* the degenerate run of an empty blob: one piece flagged first and last *)
 Lemma recv_single : forall b o l s,
   recv_run [SData b o l true true] s =
-  (set_sr ((sr (nd s)) <| stored := Some (assemble_snap [(b, o, l)]) |> <| incoming := None |>) s, [true]).
-Proof. intros. reflexivity. Qed.
+  (fst (recv_end (assemble_snap [(b, o, l)]) s), [snd (recv_end (assemble_snap [(b, o, l)]) s)]).
+Proof.
+  intros. cbn [recv_run set_transmission app]. unfold recv_end. destruct (snap_ahead _ _); reflexivity.
+Qed.
 
 (* contiguous cover of a blob by its own pieces *)
 Fixpoint cover (b : blob) (off : N) (ps : list piece) : Prop :=
@@ -357,12 +369,11 @@ Proof.
       lia.
 Qed.
 
-(* C09_chunk_reassembly, receiver: feeding the transfer to set_transmission from ANY state
-   stores exactly the blob; true is returned at the last piece only *)
-Lemma recv_transfer : forall b ch s, 1 <= ch ->
+(* feeding the transfer to set_transmission from ANY state reassembles exactly the blob; the flag of
+   the last piece says whether it was stored *)
+Lemma recv_transfer_gen : forall b ch s, 1 <= ch ->
   recv_run (transfer b ch) s =
-  (set_sr ((sr (nd s)) <| stored := Some b |> <| incoming := None |>) s,
-   repeat false (N.to_nat (nchunks (blob_len b) ch)) ++ [true]).
+  (fst (recv_end b s), repeat false (N.to_nat (nchunks (blob_len b) ch)) ++ [snd (recv_end b s)]).
 Proof.
   intros b ch s Hch.
   pose proof (transfer_cover b ch Hch) as Hc.
@@ -381,14 +392,45 @@ Proof.
     + rewrite pieces_of_run. discriminate.
 Qed.
 
+(* C09_chunk_reassembly, receiver: feeding the transfer of a snapshot ahead of the node's position to
+   set_transmission from ANY state stores exactly the blob; true is returned at the last piece only *)
+Lemma recv_transfer : forall b ch s, 1 <= ch -> snap_ahead b (applied (nd s)) = true ->
+  recv_run (transfer b ch) s =
+  (set_sr ((sr (nd s)) <| stored := Some b |> <| incoming := None |>) s,
+   repeat false (N.to_nat (nchunks (blob_len b) ch)) ++ [true]).
+Proof.
+  intros b ch s Hch Hah. rewrite recv_transfer_gen by auto. unfold recv_end. rewrite Hah. reflexivity.
+Qed.
+
+(* a blob that is corrupt or not ahead of the node's position is reassembled and dropped: the file
+   the node would restart from stays *)
+Lemma recv_transfer_refused : forall b ch s, 1 <= ch -> snap_ahead b (applied (nd s)) = false ->
+  recv_run (transfer b ch) s =
+  (set_sr ((sr (nd s)) <| incoming := None |>) s,
+   repeat false (N.to_nat (nchunks (blob_len b) ch)) ++ [false]).
+Proof.
+  intros b ch s Hch Hah. rewrite recv_transfer_gen by auto. unfold recv_end. rewrite Hah. reflexivity.
+Qed.
+
+Lemma recv_run_applied : forall ps s, applied (nd (fst (recv_run ps s))) = applied (nd s).
+Proof.
+  induction ps as [|p ps IH]; intros s; [reflexivity|]. cbn [recv_run].
+  pose proof (set_transmission_frame p s) as Hf. cbv zeta in Hf.
+  destruct (set_transmission p s) as [s1 d]. specialize (IH s1).
+  destruct (recv_run ps s1) as [s2 ds]. cbn [fst] in *.
+  destruct Hf as (_ & _ & Hf & _). congruence.
+Qed.
+
 (* restarts: whatever was received before, one complete run installs exactly the blob *)
-Lemma recv_after_anything : forall pre b ch s, 1 <= ch ->
+Lemma recv_after_anything : forall pre b ch s, 1 <= ch -> snap_ahead b (applied (nd s)) = true ->
   let r := recv_run (pre ++ transfer b ch) s in
   stored (sr (nd (fst r))) = Some b /\ incoming (sr (nd (fst r))) = None /\
   last (snd r) false = true.
 Proof.
-  intros pre b ch s Hch. cbv zeta. rewrite recv_run_app.
-  destruct (recv_run pre s) as [sa da]. rewrite recv_transfer by auto.
+  intros pre b ch s Hch Hah. cbv zeta. rewrite recv_run_app.
+  pose proof (recv_run_applied pre s) as Hap.
+  destruct (recv_run pre s) as [sa da]. cbn [fst] in Hap.
+  rewrite recv_transfer by (auto; rewrite Hap; exact Hah).
   cbn [fst snd]. unfold set_sr, upd. cbn. repeat split.
   rewrite app_assoc. apply last_last.
 Qed.
@@ -419,8 +461,11 @@ Lemma prefix_run_safe : forall b ch k s, 1 <= ch ->
 Proof.
   intros b ch k s Hch. cbv zeta.
   destruct (Nat.le_gt_cases (length (transfer b ch)) k) as [Hk|Hk].
-  { rewrite firstn_all2 by auto. rewrite recv_transfer by auto. cbn [fst snd].
-    unfold set_sr, upd; cbn. repeat split; auto. eexists; reflexivity. }
+  { rewrite firstn_all2 by auto. rewrite recv_transfer_gen by auto. cbn [fst snd].
+    unfold recv_end. destruct (snap_ahead _ _); unfold set_sr, upd; cbn; repeat split; auto;
+      try (eexists; reflexivity).
+    intros i Hi. exfalso. apply nth_error_In in Hi. apply in_app_or in Hi.
+    destruct Hi as [Hi|[Hi|[]]]; [apply repeat_spec in Hi|]; discriminate. }
   destruct (transfer_shape b ch Hch) as [[Ht H0]|(o0 & l0 & mids & Hm & Hne & Ht)].
   - rewrite Ht in *. cbn in Hk. assert (k = 0)%nat by lia. subst k. cbn.
     repeat split; auto. apply sr_only_refl. intros [|i]; discriminate.
@@ -468,11 +513,11 @@ Proof.
 Qed.
 
 (* C09_chunk_reassembly, restarts: interrupted runs followed by one complete run *)
-Lemma recv_restarts_then_complete : forall b ch ks s, 1 <= ch ->
+Lemma recv_restarts_then_complete : forall b ch ks s, 1 <= ch -> snap_ahead b (applied (nd s)) = true ->
   let r := recv_run (restarts b ch ks ++ transfer b ch) s in
   stored (sr (nd (fst r))) = Some b /\ incoming (sr (nd (fst r))) = None /\
   last (snd r) false = true.
-Proof. intros. apply recv_after_anything. auto. Qed.
+Proof. intros. apply recv_after_anything; auto. Qed.
 
 (* without a piece flagged first nothing is ever completed *)
 Definition not_first (p : snap_part) : Prop := match p with SData _ _ _ true _ => False | _ => True end.
@@ -495,7 +540,8 @@ Lemma set_transmission_stores : forall p s,
 Proof.
   intros p s. unfold set_transmission. destruct p as [|b o l f la]; cbn; [discriminate|].
   destruct (if f then Some [] else incoming (sr (nd s))) as [acc|]; cbn; [|discriminate].
-  destruct la; cbn; [|discriminate]. intros _. eexists; split; reflexivity.
+  destruct la; cbn; [|discriminate]. destruct (snap_ahead _ _); cbn; [|discriminate].
+  intros _. eexists; split; reflexivity.
 Qed.
 
 (* C09_no_wrong_snapshot: assemble_snap says Good s only for a contiguous cover of
@@ -632,11 +678,12 @@ Qed.
 Lemma catch_up_index_wf : forall l a b rest, l = a :: b :: rest -> log_wf l -> eidx b + 1 = first_idx l + 2.
 Proof. intros l a b rest -> H. unfold log_wf in H. cbn in *. destruct H as (_ & H & _). lia. Qed.
 
-(* C05_snapshot_transfer_completes: an uninterrupted transfer, sender to receiver, installs the
-   sender's blob after ceil(len/chunk) + 1 pieces *)
+(* C05_snapshot_transfer_completes: an uninterrupted transfer, sender to receiver, of a snapshot
+   ahead of the receiver's position installs the sender's blob after ceil(len/chunk) + 1 pieces *)
 Lemma snapshot_transfer_completes : forall e x sl sf b,
   1 <= chunk (cf e) -> pid (sr (nd sl)) = 0 -> asorted (trans (sr (nd sl))) ->
   stored (sr (nd sl)) = Some b -> aget x (trans (sr (nd sl))) = None ->
+  snap_ahead b (applied (nd sf)) = true ->
   let n := N.to_nat (nchunks (blob_len b) (chunk (cf e))) in
   let pieces := snd (sender_run (Datatypes.S n) e x sl) in
   let r := recv_run pieces sf in
@@ -645,7 +692,7 @@ Lemma snapshot_transfer_completes : forall e x sl sf b,
   snd r = repeat false n ++ [true] /\
   aget x (trans (sr (nd (fst (sender_run (Datatypes.S n) e x sl))))) = None.
 Proof.
-  intros e x sl sf b Hch Hp Hs Hst Hx. cbv zeta.
+  intros e x sl sf b Hch Hp Hs Hst Hx Hah. cbv zeta.
   destruct (sender_transfer e x sl b Hch Hp Hs Hst Hx (Datatypes.S (N.to_nat (nchunks (blob_len b) (chunk (cf e)))))
               ltac:(lia)) as [H1 H2].
   destruct (sender_run (Datatypes.S (N.to_nat (nchunks (blob_len b) (chunk (cf e))))) e x sl) as [s' ps].
